@@ -190,8 +190,7 @@ impl Recoverer {
             ));
             return;
         }
-        if let Err(p) = std::panic::catch_unwind(std::panic::AssertUnwindSafe(|| a.validate())) {
-            let msg = crate::common::panic_msg(p);
+        if let Err(msg) = crate::common::catch(|| a.validate()) {
             out.push(Violation::new(
                 "C05",
                 tag(&format!(
